@@ -53,7 +53,9 @@ func (v *Vue) evalAttributes(ctx VueContext, n *html.Node) (map[string]any, erro
 			results[boundName] = boundValue
 		default:
 			var err error
-			if containsInterpolation(val) {
+			// Internal attributes carry already evaluated v-html / v-text
+			// content (data); mustaches inside them are not template code.
+			if key != "data-v-html-content" && key != "data-v-text-content" && containsInterpolation(val) {
 				boundValue, err = v.interpolate(ctx, val)
 				if err != nil {
 					return nil, fmt.Errorf("error evaluating attr %s: %w", boundName, err)
